@@ -333,6 +333,9 @@ func runC06(c *Ctx) {
 		}(b, lo, hi)
 	}
 	wg.Wait()
+	if c.Thorough && confirmed.Load() == 0 {
+		runFuzzStage(c, 25000000)
+	}
 	mu.Lock()
 	defer mu.Unlock()
 	rec.Eval(int(total.Processed))
